@@ -75,6 +75,18 @@ Proof.
 Qed.
 Print Assumptions C16_glob_wellformed.
 
+(* what both Globs denote for a well-formed pattern: no meta characters -> the path itself if it exists;
+   otherwise, for every directory denoted by the directory part (in order), its sorted names that
+   match the last element, joined onto the directory (Model/Glob.v [glob_spec]) *)
+Theorem C16_glob_denotes : forall (t : tree) (pat : str),
+  well_formed pat = true -> (N.of_nat (length pat) < 10000)%N ->
+  afero_glob t pat = (glob_spec t pat, GNil) /\ std_glob t pat = (glob_spec t pat, GNil).
+Proof.
+  intros t pat H L. rewrite <- (afero_glob_eq_std_wf t pat H L).
+  split; apply afero_glob_denotes; exact H.
+Qed.
+Print Assumptions C16_glob_denotes.
+
 Theorem C16_glob_fuel : forall (t : tree) (pat : str), snd (afero_glob t pat) <> GOutOfFuel.
 Proof. exact afero_glob_fuel. Qed.
 Print Assumptions C16_glob_fuel.
